@@ -94,6 +94,9 @@ class Ctx:
 
     # ------------------------------------------------------------------ misc
     def cleanup(self):
+        if os.environ.get("VERIF_KEEP"):
+            print("scratch kept:", self.scratch)
+            return
         shutil.rmtree(self.scratch, ignore_errors=True)
 
     def log(self, *a):
@@ -173,7 +176,7 @@ class Ctx:
             (simulate is not None and p.returncode == 0)
         if finished and r.error is None:
             r.ok = True
-        elif allow_violation and ("is violated" in txt or "Assumption" in txt):
+        elif allow_violation and ("is violated" in txt or "Assumption" in txt or "Deadlock reached" in txt):
             r.ok = False
         else:
             tail = "\n".join(r.lines[-40:])
